@@ -58,7 +58,10 @@ def pick_cfgs(env: str, tier: str) -> List[Dict[str, Any]]:
     # prefer configurations with short episodes: small explicit time limits first
     def score(c):
         L = c.get("time_limit")
-        return (0 if (L is not None and L <= 7) else 1, L or 10**6)
+        if L is None:
+            return (3, 10**6)
+        # short episodes, but long enough that some steps do not terminate (a limit of 1 ends every step)
+        return (0 if 3 <= L <= 7 else (1 if L == 2 else (2 if L > 7 else 4)), L)
     ranked = sorted(cfgs[1:], key=score)
     if env in SHORT_CFG:
         ranked = [E.cfg_by_id(env, SHORT_CFG[env])] + [c for c in ranked if c["id"] != SHORT_CFG[env]]
